@@ -32,6 +32,20 @@ def jobs(tier):
                  defines={"VC_T": T}, unwind=T + 2, functions=["getLabels_"], timeout=900 if tier == "quick" else 3000,
                  bound="rows symbolic <= 2^20; thread count symbolic 2..%d" % T,
                  clause="k-means labelling: every object is labelled by exactly one worker"))
+    # one concrete larger thread count per solver call (cheap: the loop unrolls to a fixed depth); rows stay symbolic
+    SL = dict(J_matrix=("C13/slicing_matrix.c", ["vector.c", "memwrapper.c", "numeric.c"]),
+              J_metric=("C13/slicing_metricspace.c", ["vector.c", "memwrapper.c", "numeric.c", "matrix.c"]),
+              J_clust=("C13/slicing_clustering.c", ["vector.c", "memwrapper.c", "numeric.c", "matrix.c", "metricspace.c", "tensor.c", "list.c", "statistic.c", "pca.c", "preprocessing.c", "algebra.c", "graphs.c"]))
+    big = [17] if tier == "quick" else [17, 33]
+    # (the two MT_ matrix-vector drivers take the detected processor count; their instances at 17 did not finish in 900 s)
+    for fn, grp in [("CalculateDistance", "J_metric"),
+                    ("EuclideanDistanceCondensed", "J_metric"), ("SquaredEuclideanDistanceCondensed", "J_metric"), ("ManhattanDistanceCondensed", "J_metric"),
+                    ("CosineDistanceCondensed", "J_metric"), ("getLabels_", "J_clust")]:
+        for t in big:
+            J.append(Job("slice_%s@nth=%d" % (fn, t), SL[grp][0], entry="h_slice_" + fn, srcs=SL[grp][1], kind="bounded",
+                         defines={"VC_T": t, "VC_T_LO": t}, unwind=t + 2, functions=[fn], timeout=900 if tier == "quick" else 3000,
+                         bound="rows symbolic <= 2^20; thread count %d" % t,
+                         clause="every row is handed to exactly one worker at a thread count above the symbolic range"))
     shapes = [(3, 2, 2), (1, 3, 2), (4, 1, 1), (2, 2, 3)] if tier == "quick" else [(3, 2, 2), (1, 3, 2), (4, 1, 1), (2, 2, 3), (5, 2, 2), (0, 2, 2), (3, 1, 0), (4, 3, 1)]
     for (r1, r2, c) in shapes:
         for kind, entry, unit, n, fns, clause in [
